@@ -2427,6 +2427,41 @@ fn case_c13(seed: u64, idx: usize, cache: &TableCache, out: &mut String, st: &mu
     let mut body = String::new();
     let _ = writeln!(body, "case {}\nexpect case {}\n# base: {}", idx, idx, describe(&base).replace('\n', "\\n"));
     body.push_str("world\n");
+    // the cache key, structurally: the derived `==` of the real mode lists against the Lean `keyEq`
+    // on the serde trees of the same lists (pairs among the ordinary configurations of the case);
+    // equal keys must also hash equally
+    {
+        use std::hash::{Hash, Hasher};
+        let trees: Vec<Option<String>> = real_modes[..first_tiny]
+            .iter()
+            .map(|m| {
+                serde_json::to_value(m).ok().map(|v| {
+                    let mut t = String::new();
+                    jsonser::ser_value(&v, &mut t);
+                    t
+                })
+            })
+            .collect();
+        let hash_of = |m: &Vec<scnr::ScannerMode>| {
+            let mut h = std::collections::hash_map::DefaultHasher::new();
+            m.hash(&mut h);
+            h.finish()
+        };
+        for i in 0..first_tiny {
+            for j in 0..=i {
+                let (Some(a), Some(b)) = (&trees[i], &trees[j]) else { continue };
+                let eq = real_modes[i] == real_modes[j];
+                let _ = writeln!(body, "keyeq{}{}\nexpect keyeq {}", a, b, eq);
+                st.count("key_equality_pairs_compared_with_the_structural_model", 1);
+                if eq {
+                    st.count("key_equality_pairs_equal", 1);
+                    if hash_of(&real_modes[i]) != hash_of(&real_modes[j]) {
+                        body.push_str("oracle FAIL two equal mode lists hash differently\nexpect oracle\n");
+                    }
+                }
+            }
+        }
+    }
     // compile table (uncached builds); the dumps themselves are not needed by the model here
     let mut uncached: Vec<Option<scnr::Scanner>> = Vec::new();
     for (ci, modes) in real_modes.iter().enumerate() {
